@@ -504,9 +504,10 @@ def _run_b(part, ns, program, spec, conts, kinds, argname, args, ref, case, seco
         if rp.exc is not None:
             part.violation('renum/host-exception/%s/%s' % (type(rp.exc).__name__, label), '%s raised %r' % (REFUSED_FIRST, rp.exc), case)
             raise Abort()
-        if rp.err is None and not ((it.error_num, it.error_pos) != err_before and it.error_pos == -1):
-            # fewer than four lines: accepted; this case is not what the variant is for
-            part.outcome('first-renum-not-refused')
+        if rp.err is None:
+            # fewer than four lines: accepted - or the refusal was taken by the program's ON ERROR trap, whose handler
+            # has run since: neither is what this variant is for
+            part.outcome('first-renum-not-refused' if (it.error_num, it.error_pos) == err_before else 'first-renum-error-trapped')
             return
         err_before = (it.error_num, it.error_pos)
     r = R.run(s, cmd)
